@@ -1166,6 +1166,9 @@ fn tables(repo: &str, out: &str) -> Result<String, String> {
         struct_syntax.push(id);
     }
 
+    // ---- time codec of the queued message's expiry (D24) ----
+    let msg_unit = message_expiry_unit(repo)?;
+
     // ---- print ----
     let mut body = String::from("import KanidmModel.StoreCodecTypes\nset_option linter.unusedVariables false\nnamespace Kanidm.Gen.StoreCodec\nopen Kanidm.StoreCodec\n\n");
     for p in pairs.iter().chain(std::iter::once(&dispatch)) {
@@ -1203,6 +1206,10 @@ fn tables(repo: &str, out: &str) -> Result<String, String> {
             .collect::<Vec<_>>()
             .join(", ")
     );
+    body += &format!(
+        "/-- `OutboundMessage::CredentialResetV1.expiry_time` is stored with `#[serde(with = \"{}\")]`: an integer count of units of this many nanoseconds -/\ndef messageExpiryCodec : TimeCodec := {{ unitNs := {} }}\n",
+        msg_unit.0, msg_unit.1
+    );
     body += "end Kanidm.Gen.StoreCodec\n";
     let path = format!("{out}/StoreCodecTables.lean");
     let text = format!(
@@ -1219,6 +1226,54 @@ fn tables(repo: &str, out: &str) -> Result<String, String> {
         struct_names.len(),
         db_names.len()
     ))
+}
+
+/// The `#[serde(with = "…")]` module on `OutboundMessage::CredentialResetV1.expiry_time`
+/// ↦ nanoseconds per stored unit.
+fn message_expiry_unit(repo: &str) -> Result<(String, u64), String> {
+    let rel = "proto/src/v1/message.rs";
+    let ast = parse_file(repo, rel)?;
+    for it in &ast.items {
+        let syn::Item::Enum(e) = it else { continue };
+        if e.ident != "OutboundMessage" {
+            continue;
+        }
+        for v in &e.variants {
+            if v.ident != "CredentialResetV1" {
+                continue;
+            }
+            for f in v.fields.iter() {
+                if f.ident.as_ref().map(|i| i == "expiry_time").unwrap_or(false) {
+                    let mut with = None;
+                    for a in &f.attrs {
+                        if !a.path().is_ident("serde") {
+                            continue;
+                        }
+                        a.parse_nested_meta(|m| {
+                            if m.path.is_ident("with") {
+                                let v: syn::LitStr = m.value()?.parse()?;
+                                with = Some(v.value());
+                            } else if m.input.peek(syn::Token![=]) {
+                                let _: syn::Expr = m.value()?.parse()?;
+                            }
+                            Ok(())
+                        })
+                        .map_err(|e| format!("{rel}: serde attribute: {e}"))?;
+                    }
+                    let w = with.ok_or_else(|| format!("{rel}: expiry_time has no #[serde(with = ..)] (default OffsetDateTime form: extend the translator)"))?;
+                    let unit = match w.as_str() {
+                        "time::serde::timestamp" => 1_000_000_000u64,
+                        "time::serde::timestamp::milliseconds" => 1_000_000,
+                        "time::serde::timestamp::microseconds" => 1_000,
+                        "time::serde::timestamp::nanoseconds" | "time::serde::rfc3339" | "time::serde::iso8601" => 1,
+                        other => return Err(format!("{rel}: unknown time codec `{other}` on expiry_time")),
+                    };
+                    return Ok((w, unit));
+                }
+            }
+        }
+    }
+    Err(format!("{rel}: OutboundMessage::CredentialResetV1.expiry_time not found"))
 }
 
 fn lean_ident(name: &str) -> String {
